@@ -309,7 +309,7 @@ mod k {
     }
 
     // ---- C13: slab test of the box on integer data -----------------------------------------------------
-    // For boxes with integer corners and rays with integer origins and direction components in {-1,0,1} (un-normalised
+    // For boxes with integer corners and rays with integer origins and direction components in {-1,-0.0,+0.0,1} (un-normalised
     // Ray, so every product is exact), AABB::intersects is Some exactly when the exact slab test succeeds
     // (grazing rays - parallel to a face and starting in its plane, or touching only an edge - excluded).
     fn any_small() -> (i32, f32) {
@@ -321,7 +321,9 @@ mod k {
     fn any_dir() -> (i32, f32) {
         let v: i8 = kani::any();
         kani::assume(v >= -1 && v <= 1);
-        (v as i32, v as f32)
+        // a zero component comes with either sign (-0.0 is what negating an axis-parallel direction gives)
+        let negative_zero: bool = kani::any();
+        (v as i32, if v == 0 && negative_zero { -0.0f32 } else { v as f32 })
     }
 
     #[kani::proof]
@@ -1056,7 +1058,7 @@ mod n {
     fn n_c16_purge() {
         drive(
             "C16.purge",
-            "purge_unused(&mut Model): 3 spaces, 2 walls (own space {s0,s1}, adjacent {none,s1,s2}, construction {c0,c1}), 1 window (construction {x0,x1}; x1 glass {g0,g1}), 4 bridges (lengths {0,2} / -1 / 0.001 / -0.0), space loads {none,l0,l1} x thermostat {none,t0}, load schedules over 3 yearly, thermostat schedule {none,y1,y2}, yearly->weekly->daily chains with sharing; every collection listed as built / reversed / rotated by one",
+            "purge_unused(&mut Model): 3 spaces, 2 walls (own space {s0,s1}, adjacent {none,s1,s2}, construction {c0,c1}), 1 window (construction {x0,x1}; x1 glass {g0,g1}), 4 bridges (lengths {0,2} / -1 / 0.001 / -0.0), space kind {conditioned, unconditioned, uninhabited} x loads {none,l0,l1} x thermostat {none,t0}, load schedules over 3 yearly, thermostat schedule {none,y1,y2}, yearly->weekly->daily chains with sharing; every collection listed as built / reversed / rotated by one",
             |c| {
                 let mut m = empty_model();
                 for i in 0..3u128 {
@@ -1093,6 +1095,8 @@ mod n {
                 let st = c.of(&[None, Some(0xB8u128)]);
                 m.spaces[0].loads = sl.map(uid);
                 m.spaces[0].thermostat = st.map(uid);
+                // what keeps loads / thermostats / schedules alive is the reference, whatever the kind of the space
+                m.spaces[0].kind = c.of(&[SpaceType::CONDITIONED, SpaceType::UNCONDITIONED, SpaceType::UNINHABITED]);
                 // a space that no wall refers to holds references too: they must not keep anything alive
                 m.spaces[2].loads = Some(uid(0xB1));
                 let ps = c.of(&[None, Some(0x30u128), Some(0x31)]);
